@@ -1437,6 +1437,7 @@ fn insert_child(
         | Dl(ref mut children)
         | Div(ref mut children)
         | BlockQuote(ref mut children)
+        | Header(_, ref mut children)
         | Container(ref mut children)
         | TableCell(RenderTableCell {
             content: ref mut children,
@@ -1448,6 +1449,29 @@ fn insert_child(
             }
             // Now return orig, but we do that outside the match so
             // that we've given back the borrowed ref 'children'.
+        }
+
+        // A fragment start for a list goes to the start of its first item,
+        // for the same reason (a marker child of the list itself would be
+        // rendered as an item).
+        Ul(ref mut items) | Ol(_, ref mut items)
+            if position == ChildPosition::Start
+                && matches!(new_child.info, FragStart(_))
+                && matches!(
+                    items.first(),
+                    Some(RenderNode {
+                        info: ListItem(_),
+                        ..
+                    })
+                ) =>
+        {
+            if let Some(RenderNode {
+                info: ListItem(ref mut children),
+                ..
+            }) = items.first_mut()
+            {
+                children.insert(0, new_child);
+            }
         }
 
         // For table rows and tables, push down if there's any content.
